@@ -3,6 +3,7 @@
 -/
 import T2N.Lemmas.Scanner
 import T2N.Lemmas.Thr
+import T2N.Lemmas.Policy
 
 namespace T2N.C09
 open T2N
@@ -112,5 +113,90 @@ theorem C09_zero_all (c1 c2 : ScanCfg) (hl : c1.lang = c2.lang) (hc : c1.cc = c2
 /-! non-vacuity: `ThrLe` relates e.g. thresholds 5 and 10 -/
 example (c : ScanCfg) : ThrLe { c with thrLt := fun n => n < 5 } { c with thrLt := fun n => n < 10 } :=
   ⟨rfl, rfl, rfl, fun n h => by simp at h ⊢; omega⟩
+
+/-! ### the policy, exactly (event level)
+
+`events cfg toks` (Lemmas/Policy.lean) is the list of what the scanner tells its tracker, in order: `num o`
+for every recognised number (call of `number_end`, with span, digits, value, kind), `brk` for every call of
+`sequence_breaker`.  It is computed by an instrumented copy of the scanner that never reads the
+threshold.  `keptAt cfg evs i` is the policy as a pure function of the event list. -/
+
+/-- **C09 (recognition is threshold-free)**: the events — which numbers are recognised, with which span,
+digits, value and kind, and where the sequence breakers fall — do not depend on the threshold -/
+theorem C09_events_threshold_free (c1 c2 : ScanCfg) (hl : c1.lang = c2.lang) (hc : c1.cc = c2.cc)
+    (hs : c1.sep = c2.sep) (toks : List Tok) : events c1 toks = events c2 toks :=
+  events_thr c1 c2 hl hc hs toks
+
+/-- every run has an event list (so the hypothesis of `C09_policy_exact` is always satisfiable) -/
+theorem C09_events_total (cfg : ScanCfg) (toks : List Tok) : ∃ evs, events cfg toks = .ok evs :=
+  events_ok cfg toks
+
+/-- **C09 (the policy, exactly)**: what `find_numbers` reports is the list of the `num` events at the
+indices where `keptAt` holds: the number is not small (`smallEv`: single-byte text or ordinal, and value
+below the threshold), or the event just before it is a number of the same kind, or the event just after it
+is a number of the same kind -/
+theorem C09_policy_exact (cfg : ScanCfg) (toks : List Tok) (evs : List Ev) (h : events cfg toks = .ok evs) :
+    findNumbers cfg toks = .ok (keptList cfg evs) :=
+  findNumbers_eq_kept cfg toks evs h
+
+/-- membership form of `C09_policy_exact` -/
+theorem C09_reported_iff (cfg : ScanCfg) (toks : List Tok) (evs : List Ev) (h : events cfg toks = .ok evs) :
+    ∃ occs, findNumbers cfg toks = .ok occs ∧
+      ∀ o, o ∈ occs ↔ ∃ i, evs[i]? = some (.num o) ∧ keptAt cfg evs i = true :=
+  ⟨_, C09_policy_exact cfg toks evs h, mem_keptList cfg evs⟩
+
+/-- **C09 (left in words ⇔ small and isolated)** -/
+theorem C09_left_in_words_iff (cfg : ScanCfg) (evs : List Ev) (i : Nat) (o : Occ) (h : evs[i]? = some (.num o)) :
+    keptAt cfg evs i = false ↔
+      smallEv cfg o = true ∧ sameKind o (prevEv evs i) = false ∧ sameKind o evs[i + 1]? = false :=
+  keptAt_false_iff h
+
+/-- **C09 (one recognition, two thresholds)**: two configurations that differ only in the threshold see
+the same events; each reports its own kept-filter of them, and threshold 0 reports them all -/
+theorem C09_same_events (c1 c2 : ScanCfg) (hl : c1.lang = c2.lang) (hc : c1.cc = c2.cc) (hs : c1.sep = c2.sep)
+    (toks : List Tok) :
+    ∃ evs, events c1 toks = .ok evs ∧ events c2 toks = .ok evs ∧
+      findNumbers c1 toks = .ok (keptList c1 evs) ∧ findNumbers c2 toks = .ok (keptList c2 evs) ∧
+      findNumbers (atZero c1) toks = .ok (nums evs) ∧
+      (keptList c1 evs).Sublist (nums evs) ∧ (keptList c2 evs).Sublist (nums evs) := by
+  obtain ⟨evs, h1⟩ := events_ok c1 toks
+  have h2 : events c2 toks = .ok evs := by rw [← events_thr c1 c2 hl hc hs]; exact h1
+  have h0 : events (atZero c1) toks = .ok evs := by
+    rw [events_thr (atZero c1) c1 rfl rfl rfl]; exact h1
+  refine ⟨evs, h1, h2, C09_policy_exact c1 toks evs h1, C09_policy_exact c2 toks evs h2, ?_,
+    keptList_sublist c1 evs, keptList_sublist c2 evs⟩
+  rw [C09_policy_exact (atZero c1) toks evs h0, keptList_all (atZero c1) (fun _ => rfl)]
+
+/-- a number that is not small is reported whatever surrounds it -/
+theorem C09_not_small_kept (cfg : ScanCfg) (evs : List Ev) (i : Nat) (o : Occ) (h : evs[i]? = some (.num o))
+    (hs : smallEv cfg o = false) : keptAt cfg evs i = true :=
+  keptAt_of_not_small h hs
+
+/-- three numbers of the same kind in a row (no breaker between them) are all reported at every
+threshold: `one, two, three` -/
+theorem C09_sequence_kept (cfg : ScanCfg) (evs : List Ev) (i : Nat) (a b c : Occ)
+    (ha : evs[i]? = some (.num a)) (hb : evs[i + 1]? = some (.num b)) (hc : evs[i + 2]? = some (.num c))
+    (hab : a.isOrdinal = b.isOrdinal) (hbc : b.isOrdinal = c.isOrdinal) :
+    keptAt cfg evs i = true ∧ keptAt cfg evs (i + 1) = true ∧ keptAt cfg evs (i + 2) = true :=
+  ⟨(keptAt_pair ha hb hab).1, (keptAt_pair ha hb hab).2, (keptAt_pair (i := i + 1) hb hc hbc).2⟩
+
+/-- with a threshold nothing is below, every recognised number is reported -/
+theorem C09_zero_threshold_all (cfg : ScanCfg) (hz : ∀ n, cfg.thrLt n = false) (toks : List Tok) (evs : List Ev)
+    (h : events cfg toks = .ok evs) : findNumbers cfg toks = .ok (nums evs) := by
+  rw [C09_policy_exact cfg toks evs h, keptList_all cfg hz]
+
+/-! a worked instance of the policy (threshold 10): `one two` is a sequence, `three` is isolated by the
+breaker, `1st` is small and follows a number of the other kind, `21` is not small -/
+def exCfg : ScanCfg :=
+  ⟨⟨"x", fun _ b => (some .nan, b), fun _ b => (some .nan, b), fun _ => .none, fun _ => false, '.', fun _ => false⟩,
+   ⟨fun c => c == ' ', Char.isAlpha, Char.isAlphanum, fun c => [c.toLower]⟩, fun _ _ => false, fun n => n < 10⟩
+
+example :
+    keptList exCfg
+      [.num ⟨0, 1, ['1'], .dec [1] [], false⟩, .num ⟨1, 2, ['2'], .dec [2] [], false⟩, .brk,
+       .num ⟨3, 4, ['3'], .dec [3] [], false⟩, .num ⟨4, 5, ['1', 's', 't'], .dec [1] [], true⟩, .brk,
+       .num ⟨6, 8, ['2', '1'], .dec [2, 1] [], false⟩] =
+      [⟨0, 1, ['1'], .dec [1] [], false⟩, ⟨1, 2, ['2'], .dec [2] [], false⟩,
+       ⟨6, 8, ['2', '1'], .dec [2, 1] [], false⟩] := by decide
 
 end T2N.C09
